@@ -78,6 +78,32 @@ class ModuleAwareEvaluator(Evaluator):
         finally:
             self._mods.pop()
 
+    def call(self, e, env):
+        # a module-level function of the analysed tree (plain, or memoised with functools.lru_cache / cache, which is
+        # transparent for the value): interpreted like a method
+        f = e.func
+        if isinstance(f, ast.Name) and f.id not in env and f.id not in self.globals and f.id not in self.functions \
+                and f.id not in self.classes:
+            mod = next((m for m in reversed(self._mods) if m is not None), None)
+            home = self.prog.global_home(mod, f.id) if mod is not None else None
+            fn = home[0].functions.get(home[1]) if home is not None else None
+            if fn is not None and all(ast.unparse(d.func if isinstance(d, ast.Call) else d).split(".")[-1] in ("lru_cache", "cache")
+                                      for d in fn.node.decorator_list) and self._depth_ok():
+                args = []
+                for a in e.args:
+                    if isinstance(a, ast.Starred):
+                        args.extend(list(self.iterate(self.expr(a.value, env))))
+                    else:
+                        args.append(self.expr(a, env))
+                kwargs = {k.arg: self.expr(k.value, env) for k in e.keywords if k.arg is not None}
+                if any(k.arg is None for k in e.keywords):
+                    raise Unsupported("** in a call of a module-level function")
+                return self.invoke(fn.node, args, kwargs)
+        return super().call(e, env)
+
+    def _depth_ok(self) -> bool:
+        return len(self._mods) < self.max_call_depth
+
     def _lookup(self, name):
         mod = next((m for m in reversed(self._mods) if m is not None), None)
         if mod is None:
